@@ -858,6 +858,9 @@ fn run_step(h: &mut Heap, step: &Step, scratch_key: u64) -> Result<(), Fail> {
                                     let _ = catch(|| v.bit(i));
                                     let _ = catch(|| v.word(i));
                                     let _ = v.count_ones();
+                                    // the (unimplemented, panicking) safe write of a read-only view
+                                    let mut v = v;
+                                    let _ = catch(move || v.set_bit(i, true));
                                 }
                             }
                             2 if slot == Some(2) || o >= total => {
@@ -891,6 +894,9 @@ fn run_step(h: &mut Heap, step: &Step, scratch_key: u64) -> Result<(), Fail> {
                                         let i = idx.res(inner.len(), inner.len());
                                         let _ = catch(|| inner.bit(i));
                                     }
+                                    // unwrap() of an absent option panics, of a present one gives the same view
+                                    let _ = catch(|| v.unwrap().len());
+                                    let _ = (v.is_some(), v.is_none());
                                 }
                             }
                             _ => {}
